@@ -22,7 +22,7 @@ def _spec_strings(maxlen):
 def plan(tier, seed):
     specs = []
     # exhaustive alphabet space, split in 16 slices (quick and thorough: all strings of length <= 5; thorough adds 6)
-    maxlen = 6 if tier == "quick" else 8
+    maxlen = 7 if tier == "quick" else 9
     for i in range(16):
         specs.append(("alphabet", maxlen, i, 16))
     nrand = 30000 if tier == "quick" else 300000
@@ -92,8 +92,9 @@ def _rand_component(rng, allow_empty=False):
     pools = [
         "abcXYZ019_-./",
         ",=\\",
-        " \t",
+        " \t\u00a0\u3000",                 # inner whitespace (also multi-byte) stays
         "éß中文\U0001F600Жאก",
+        "\u200b\ufeff\u180e\u2060",        # look like blanks but are not White_Space: never trimmed
     ]
     n = rng.choice([0, 1, 1, 2, 3, 5, 9]) if allow_empty else rng.choice([1, 1, 2, 3, 5, 9])
     s = "".join(rng.choice(rng.choice(pools)) for _ in range(n))
@@ -300,7 +301,7 @@ def main(tier, seed):
     run = core.run_shards(__name__, PROP, tier, seed, paths, plan(tier, seed))
     return core.finish(
         run, "exploration",
-        rule=("cases = (a) every string of length <= 6 (thorough: 8) over {a, space, ',', '=', backslash} passed as -G and "
+        rule=("cases = (a) every string of length <= 7 (thorough: 9) over {a, space, ',', '=', backslash} passed as -G and "
               "compared with the reference parser; (b) random Unicode path/pair lists rendered with escaping and padding; "
               "(c) 1-4 repeated -G options; (d) real binary runs with a capturing generator. distinct_nontrivial = distinct "
               "non-empty specification strings / argv vectors"),
